@@ -38,13 +38,20 @@ def p_c11(facts, rep, tier):
     rep.explanation = (
         "C11 (refusal clause only): Overlay::commit / try_commit_nonblocking are gated by the parent-marker check, the "
         "lock-acquired check and the previous-root check before any effect, in particular before the overlay's status is "
-        "flipped to COMMITTED (which is what lets descendants treat the chain as complete). Behavioural equivalence of "
-        "overlays with commits is not decided."
+        "flipped to COMMITTED (which is what lets descendants treat the chain as complete). P1: the chain-completeness guard of "
+        "LiveOverlay::new, evaluated over the three-value status domain (the MIR of the predicate, its closure and helpers is interpreted for "
+        "LIVE, DROPPED and COMMITTED), refuses exactly the non-COMMITTED parents; P2: the status word is written only by commit (COMMITTED) and "
+        "drop (compare_exchange LIVE -> DROPPED). Behavioural equivalence of overlays with commits is not decided."
     )
     n_fn, n_eff, n_guard = guardfx.run(facts, rep, "C11")
     rep.floor("C11 guardfx functions", n_fn, 2)
     rep.floor("C11 guardfx effect sites", n_eff, 10)
     rep.floor("C11 guardfx guards", n_guard, 5)
+    import statusdom
+
+    np1, np2 = statusdom.run(facts, rep)
+    rep.floor("C11 P1 obligations (status guard + truth table)", np1, 1)
+    rep.floor("C11 P2 writers of the status word", np2, 2)
     rep.assume("path feasibility is ignored", "effect table as in rules/guardfx.py")
     rep.trust("rustc MIR (nightly, mir-opt-level=0)", "rules/guardfx.py tables")
 
